@@ -161,11 +161,19 @@ Theorem C09_release_config : nochecks_of CRelease = true /\
 Proof. exact release_config. Qed.
 Print Assumptions C09_release_config.
 
-(* -fwrapv reaches every compiler of the GNU family (gcc, clang, zig cc, emcc, g++, clang++): the fact base_mode,
-   and so the next theorem, depends on *)
-Theorem C09_every_gnu_compiler_wraps : forallb (fun b => b) gnu_family_base_has_fwrapv = true /\ m_wrapv base_mode = true.
-Proof. exact every_gnu_compiler_wraps. Qed.
-Print Assumptions C09_every_gnu_compiler_wraps.
+(* -fwrapv reaches every entry of cdefs.compilers_flags that derives from gcc (gcc, emcc, clang, g++, clang++, zig cc
+   today; the family is computed from the inheritance chain, nvcc is exempt by name with the reason in Gen.v): the
+   fact base_mode, and so the theorem after the next, depends on *)
+Theorem C09_gcc_derived_entries_wrap : forallb (fun b => b) gcc_derived_base_has_fwrapv = true /\ m_wrapv base_mode = true.
+Proof. exact gcc_derived_entries_wrap. Qed.
+Print Assumptions C09_gcc_derived_entries_wrap.
+
+(* ... but not the generic entry `cc` (--cc cc, CC=cc): a gcc or clang installed under that name compiles without
+   -fwrapv and the wrap idioms change their value (known finding, replayed by the wrap stream with --cc cc;
+   proposed repair harness/C09/proposed_repairs/02-generic-cc-gnu-base-flags.diff) *)
+Theorem C09_generic_cc_wraps_refuted : ~ generic_cc_wraps_full.
+Proof. exact generic_cc_wraps_refuted. Qed.
+Print Assumptions C09_generic_cc_wraps_refuted.
 
 (* the plain operators are UB-free in the dialect the base flags select; they are not without -fwrapv *)
 Theorem C09_plain_ops_defined_with_base_flags : forall t a b,
